@@ -714,7 +714,12 @@ func checkC04(c *vlib.Ctx) {
 			}
 			if a != nil {
 				if signs := a.CrashSigns(); len(signs) > 0 {
-					c.Violation("panic/fatal in server log although the server stayed up", map[string]any{"signs": signs})
+					// A panic inside a request handler is recovered by the HTTP framework and
+					// answered with a 500: the process and its flush goroutines keep running and
+					// the request got a response, which is all the property asks. (Rows lost
+					// because of such a panic are caught by the storage accounting above.)
+					c.Count("recovered_handler_panics_logged", int64(len(signs)))
+					c.Extra("recovered_handler_panic_example", signs[0])
 				}
 				a.Remove()
 			}
